@@ -162,8 +162,10 @@ def qOp (fx : Fixes) (e : QEnv) (tok : String) : Option (QEnv × String) :=
       | _, _ => e'
     (e', showOut out)
   match tok.splitOn ":" with
-  | ["new", v, f] => do pure (exec (.alloc (← parseFrame f)) (some (← parseNat v)))
-  | ["mut", v, f] => do
+  -- `newb`/`mutb`: the same caller actions with a `bytearray` message that is then rewritten in
+  -- place (`frame.message[:] = …`); a queue that keeps by-value copies cannot tell the difference
+  | ["new", v, f] | ["newb", v, f] => do pure (exec (.alloc (← parseFrame f)) (some (← parseNat v)))
+  | ["mut", v, f] | ["mutb", v, f] => do
     let f ← parseFrame f
     match ← e.get (← parseNat v) with
     | none => pure (e, "skip")            -- the variable holds `None`
@@ -191,7 +193,7 @@ def qOp (fx : Fixes) (e : QEnv) (tok : String) : Option (QEnv × String) :=
     own assignments `new`/`mut`/`unp` and the `sent` annotation print only their result), and
     always the last op of a line -/
 def printsState (tok : String) : Bool :=
-  !(tok.startsWith "new:" || tok.startsWith "mut:" || tok.startsWith "unp:" || tok.startsWith "sent:")
+  !(tok.startsWith "new:" || tok.startsWith "mut:" || tok.startsWith "newb:" || tok.startsWith "mutb:" || tok.startsWith "unp:" || tok.startsWith "sent:")
 
 def qRun (fx : Fixes) : QEnv → List String → List String → Option (List String)
   | _, [], acc => some acc.reverse
